@@ -107,6 +107,8 @@ pub enum MapOp {
     Capacity,
     /// every `Default` impl of the container and its iterators
     Defaults,
+    /// self-checking scenarios on other element shapes (paddings, unsized borrowed forms)
+    Shapes,
     /// clone of a container of plain (destructor-free, counting-`Clone`) elements built from the list
     ClonePlain(Vec<(u16, u16)>),
     /// serde round trip of a container of `k` zero-sized elements (at most one is stored)
@@ -366,6 +368,7 @@ fn map_op(a: &[&str]) -> Option<MapOp> {
         ["is_empty"] => MapOp::IsEmpty,
         ["capacity"] => MapOp::Capacity,
         ["defaults"] => MapOp::Defaults,
+        ["shapes"] => MapOp::Shapes,
         ["clone_plain", xs] => {
             let v: Option<Vec<(u16, u16)>> = list(xs)?.into_iter().map(|it| {
                 let (a, b) = it.split_once('=')?;
